@@ -93,7 +93,7 @@ struct CliVsLib {
 
 fn corpus_texts() -> Vec<String> {
     let mut v = Vec::new();
-    for dir in ["/repo/examples", "/repo/tests/stress"] {
+    for dir in [format!("{}/examples", crate::util::repo_root()), format!("{}/tests/stress", crate::util::repo_root())] {
         if let Ok(rd) = std::fs::read_dir(dir) {
             let mut files: Vec<_> = rd.flatten().map(|e| e.path()).collect();
             files.sort();
